@@ -53,7 +53,7 @@ func scenarios() []scenarioDef {
 		{"v2-2x[G,G,C,C]-free{126,127}", 2, []int{126, 127}, [][]string{{"G", "G", "C", "C"}, {"G", "C", "G"}}, [2]int{3, 5}, nil, nil},
 		{"v2-3x[G,C]-free{10}", 2, []int{10}, [][]string{{"G", "C"}, {"G", "C"}, {"G", "C"}}, [2]int{3, 5}, nil, nil},
 		{"v3-2x[G,C,G]-free{1,32767}", 3, []int{1, 32767}, [][]string{{"G", "C", "G"}, {"G", "C"}}, [2]int{2, 3}, nil, nil},
-		{"v3-3x[G]-free{64,65}", 3, []int{64, 65}, [][]string{{"G"}, {"G"}, {"G"}}, [2]int{2, 3}, nil, nil},
+		{"v3-3x[G]-free{64,65}", 3, []int{64, 65}, [][]string{{"G"}, {"G"}, {"G"}}, [2]int{1, 2}, nil, nil},
 	}
 }
 
